@@ -68,7 +68,7 @@ def run(ctx):
                         rec["size"], rec["magic"], rec["len64"], rec["class"], ",".join(rec["funcs"]),
                         vf.canon(rec["real"]), dev), rec)
 
-    n = 400 if q else 100000
+    n = 400 if q else 60000
     r2 = ctx.gotest("embed", HF, "^TestZZVEmbedRoundTrip$", env={"ZZV_N": n}, timeout=1500)
     s2 = (r2.of("summary") or [None])[0]
     if not s2:
